@@ -257,10 +257,12 @@ func (c *cubicSender) maybeIncreaseCwnd(
 			c.numAckedPackets = 0
 		}
 	} else {
-		c.congestionWindow = min(
+		// An acknowledgement never shrinks the window: the cubic estimate can come out lower than the current
+		// window, e.g. when a new (smaller) MinRTT sample moves the evaluation point of the curve backwards.
+		c.congestionWindow = max(c.congestionWindow, min(
 			c.maxCongestionWindow(),
 			c.cubic.CongestionWindowAfterAck(ackedBytes, c.congestionWindow, c.rttStats.MinRTT(), eventTime),
-		)
+		))
 	}
 }
 
